@@ -113,6 +113,10 @@ func c14Shapes(prog, proc uint32, thorough bool) []string {
 			out = append(out, "wf:root,file,"+nm)
 		}
 	}
+	if prog == wire.ProgNFS && proc == wire.SETATTR {
+		// sattrguard3: obj_ctime that cannot match (NFS3ERR_NOT_SYNC path) and, for the stale handle, the same
+		out = append(out, "wfguard:file", "wfguard:dir", "wfguard:stale")
+	}
 	if prog == wire.ProgNFS && (proc == wire.READ || proc == wire.WRITE) {
 		// transfers above 64 KiB take the per-operation rate-limit branch of the handlers
 		out = append(out, "wflarge:file", "wflarge:stale")
@@ -173,6 +177,10 @@ func (w *c14World) args(prog, proc uint32, shape string) []byte {
 	case strings.HasPrefix(shape, "wf:"):
 		p := strings.SplitN(shape[3:], ",", 3)
 		return c14Build(prog, proc, w.handleOf(p[0]), w.handleOf(p[1]), p[2])
+	case strings.HasPrefix(shape, "wfguard:"):
+		var e wire.Enc
+		e.FH(w.handleOf(shape[8:])).Sattr(wire.Sattr{Mode: wire.U32p(0o640)}).U32(1).U32(12345).U32(678)
+		return e.B
 	case strings.HasPrefix(shape, "wflarge:"):
 		var e wire.Enc
 		e.FH(w.handleOf(shape[8:])).U64(0).U32(70000)
@@ -205,7 +213,7 @@ func (w *c14World) args(prog, proc uint32, shape string) []byte {
 
 func c14ShapeClass(shape string) string {
 	switch {
-	case strings.HasPrefix(shape, "wf:"), strings.HasPrefix(shape, "wflarge:"):
+	case strings.HasPrefix(shape, "wf:"), strings.HasPrefix(shape, "wflarge:"), strings.HasPrefix(shape, "wfguard:"):
 		return "wellformed"
 	case strings.HasPrefix(shape, "prefix:"):
 		return "truncated"
@@ -404,7 +412,7 @@ func init() {
 	vRegister(&vCheck{
 		id: "C14", level: "exploration", flavour: "vtime", also: []string{"C14.conc"},
 		shards: func(string) int { return 16 },
-		rule:   "complete product: NFSv3 procedures 0..23 and MOUNT procedures 0..6 (v3 and v1), unknown programs/versions x argument shapes {well-formed for every (directory-slot, object-slot) handle kind in {root,dir,file,symlink,stale}^2 and 7 name kinds, READ and WRITE also with a 70000-byte transfer (the per-operation rate-limit branch); every byte-prefix of the well-formed encoding; every 32-bit word replaced by 0/1/0xFFFFFFFF (thorough adds 2/8/0x80000000)} x server states {normal, read-only, policy drain (policy write lock held), per-operation rate limit exhausted, connection-level rate limit exhausted (through the real connection loop), operation timeouts expired}; each case runs on a fresh instance; the reply must parse as an RFC 1831 reply echoing the xid and its body must decode exactly as the RFC 1813 result for (procedure, status) with the status a member of nfsstat3 / mountstat3. Distinct non-trivial = distinct (state, procedure, shape).",
+		rule:   "complete product: NFSv3 procedures 0..23 and MOUNT procedures 0..6 (v3 and v1), unknown programs/versions x argument shapes {well-formed for every (directory-slot, object-slot) handle kind in {root,dir,file,symlink,stale}^2 and 7 name kinds, READ and WRITE also with a 70000-byte transfer (the per-operation rate-limit branch), SETATTR also with a guard whose ctime cannot match; every byte-prefix of the well-formed encoding; every 32-bit word replaced by 0/1/0xFFFFFFFF (thorough adds 2/8/0x80000000)} x server states {normal, read-only, policy drain (policy write lock held), per-operation rate limit exhausted, connection-level rate limit exhausted (through the real connection loop), operation timeouts expired}; each case runs on a fresh instance; the reply must parse as an RFC 1831 reply echoing the xid and its body must decode exactly as the RFC 1813 result for (procedure, status) with the status a member of nfsstat3 / mountstat3. Distinct non-trivial = distinct (state, procedure, shape).",
 		assumptions: []string{"MOUNT v1 result shapes are explored (no crash, RPC envelope judged) but not judged against MOUNT v3 shapes",
 			"the wire kit is the judge of well-formedness; it was written from the RFCs, not from the repository's encoders"},
 		run: func(c *vCtx) {
